@@ -30,10 +30,24 @@ def _records(text: str):
     return recs, final_nl
 
 
-def apply(diff: str, before: str) -> str:
-    """Apply `diff` to `before`; raises DiffError when it does not apply exactly."""
+def apply(diff: str, before: str, model: str = "patch") -> str:
+    """Apply `diff` to `before`; raises DiffError when it does not apply exactly.
+
+    model "patch": records are LF-terminated lines (what patch(1) sees).
+    model "split": records are before.split("\\n") - a text ending in LF has a last, empty, unterminated record - and
+    the result is "\\n".join(records).  A consumer that splits and joins on LF applies diffs produced from
+    text.split("\\n") line lists (the manifest writers) exactly under this model.
+
+    Byte-level reading of an unterminated last record: when the diff text does not end with "\n" and its last
+    record has an empty body, that record stands for zero bytes.  At the end of the original it matches "end of
+    file" (context / removed) or adds nothing (added).  This is exactly what the record denotes as bytes, and is part
+    of the final-newline tolerance the property grants.
+    """
     old, old_nl = _records(before)
+    if model == "split":
+        old = before.split("\n")
     d, d_nl = _records(diff)
+    phantom = len(d) - 1 if (model == "patch" and d and not d_nl and d[-1][1:] == "" and d[-1][:1] in (" ", "+", "-", "")) else -1
     i = 0
     # headers
     while i < len(d) and not d[i].startswith("@@"):
@@ -44,7 +58,7 @@ def apply(diff: str, before: str) -> str:
         raise DiffError("no hunk in diff")
     out = []
     pos = 0  # index into old (0-based) of the next unconsumed record
-    last_new_rec_is_last_diff_rec = False
+    ends_with_diff_record = False
     while i < len(d):
         m = _HUNK.match(d[i])
         if not m:
@@ -65,6 +79,14 @@ def apply(diff: str, before: str) -> str:
                 i += 1
                 continue
             tag, body = (rec[0], rec[1:]) if rec else (" ", "")
+            if i == phantom and pos >= len(old):
+                # zero bytes at end of file
+                if tag in (" ", "-"):
+                    seen_old += 1
+                if tag in (" ", "+"):
+                    seen_new += 1
+                i += 1
+                continue
             if tag == " ":
                 if pos >= len(old) or old[pos] != body:
                     raise DiffError(f"context mismatch at original line {pos + 1}: diff has {body!r}, file has {old[pos] if pos < len(old) else None!r}")
@@ -88,19 +110,38 @@ def apply(diff: str, before: str) -> str:
         while i < len(d) and d[i].startswith("\\"):
             i += 1
     out += old[pos:]
+    if model == "split":
+        return "\n".join(out)
     return "\n".join(out) + ("\n" if out else "")
 
 
 def equal_mod_final_newline(x: str, y: str) -> bool:
-    strip = lambda s: s[:-1] if s.endswith("\n") else s
-    return strip(x) == strip(y)
+    """Equal up to the presence of one final newline."""
+    return x == y or x + "\n" == y or x == y + "\n"
 
 
-def fold(diffs: list[str], before: str) -> str:
+def fold(diffs: list[str], before: str, model: str = "patch") -> str:
     cur = before
     for d in diffs:
-        cur = apply(d, cur)
+        cur = apply(d, cur, model)
     return cur
+
+
+def reproduces(diffs: list[str], before: str, after: str):
+    """-> (ok, detail).  ok when folding the diffs over `before` gives `after` (mod one final newline) under the
+    patch(1) reading or under the split/join-on-LF reading."""
+    errs = []
+    for model in ("patch", "split"):
+        try:
+            got = fold(diffs, before, model)
+        except DiffError as e:
+            errs.append(("diff-does-not-apply", f"[{model} model] {e}"))
+            continue
+        if equal_mod_final_newline(got, after):
+            return True, None
+        n = next((i for i, (x, y) in enumerate(zip(got, after)) if x != y), min(len(got), len(after)))
+        errs.append(("diff-result-differs", f"[{model} model] first difference at char {n}: {got[max(0, n - 20):n + 20]!r} vs {after[max(0, n - 20):n + 20]!r}"))
+    return False, errs[0]
 
 
 # --------------------------------------------------------------------------- self-test
